@@ -1,15 +1,24 @@
 // C13 harness. One task per line (fields as in scan_common.h) plus one of
-//   ep=<input>          scan that (single-block) input through every entry point:
+//   ep=<input> [cbs=<script>,<script>,...]
+//                       scan that (single-block) input through every entry point, once per callback script ("-", a<k>, e<k>):
 //                       rules_scan_mem, rules_scan_file, rules_scan_fd, scanner_scan_mem, scanner_scan_file,
-//                       scanner_scan_fd, scanner_scan_mem_blocks (own single-block iterator), rules_scan_mem_blocks
-//                       output: <id> E <trace>|<trace>|...           (8 traces, in that order)
-//   masks=<input>:<N>   for EVERY subset of the first N iterator calls (counted over the whole interrupted scan, calls
+//                       scanner_scan_fd, scanner_scan_mem_blocks (own single-block iterator), rules_scan_mem_blocks.
+//                       After every call the resource protocol is checked: buffer untouched, no descriptor leaked, file
+//                       unchanged; for the fd entry points the CALLER's descriptor is still open, at the same offset,
+//                       readable, and a second scan on it gives the same trace. Then missing file / closed descriptor.
+//                       output: <id> E <script>=<trace>;R=<ok|what broke>|...(8)^<script>=...^N=<4 result codes>;msgs=0;R=ok
+//   masks=<input>:<N>[:<w>]  (w: input holding the same bytes as ONE block; its yr_rules_scan_mem trace is appended as !W=...)
+//                       for EVERY subset of the first N iterator calls (counted over the whole interrupted scan, calls
 //                       made by rule evaluation included) answer "not ready" at exactly those calls and repeat
 //                       yr_scanner_scan_mem_blocks until it no longer returns ERROR_BLOCK_NOT_READY
 //                       output: <id> M <k>!<class 0>!...!<class k-1>!<class index per mask>!<calls per mask>!<flag per mask>
 //                       class = all callback messages of all calls concatenated + final result code; indices/calls in
 //                       base 36; flag = 1 if a not-ready answer was given to a call made by rule evaluation
 #include "scan_common.h"
+#include <signal.h>
+// a case that does not finish is reported with its id instead of stalling the whole run
+static char vf_current[128];
+static void vf_alarm(int sig) { (void) sig; fprintf(stderr, "CASE-HANGS %s (no result after 300 s)\n", vf_current); _exit(97); }
 
 typedef struct { ITCTX ic; YR_MEMORY_BLOCK_ITERATOR it; CBCTX t; } RUN;
 
@@ -21,7 +30,35 @@ static void scratch_path(char* out, size_t n, const char* id)
   snprintf(out, n, "%s/entry_%d_%s.bin", d ? d : "/work/out", (int) getpid(), id);
 }
 
-static void do_entry_points(const char* id, YR_RULES* rules, INPUT* in, int flags, int timeout)
+#include <dirent.h>
+static int count_fds(void)
+{
+  int n = 0;
+  DIR* d = opendir("/proc/self/fd");
+  if (!d) return -1;
+  while (readdir(d)) n++;
+  closedir(d);
+  return n;
+}
+
+// post-conditions of an fd entry point: the CALLER's descriptor is still open, at the same offset, readable, same size
+static const char* fd_state(int fd, INPUT* in, off_t off0)
+{
+  struct stat st;
+  if (fcntl(fd, F_GETFD) == -1) return "fd-closed";
+  if (fstat(fd, &st) != 0) return "fstat-fails";
+  if ((size_t) st.st_size != in->size) return "size-changed";
+  if (lseek(fd, 0, SEEK_CUR) != off0) return "offset-moved";
+  if (in->size)
+  {
+    uint8_t buf[16]; size_t n = in->size < 16 ? in->size : 16;
+    if (pread(fd, buf, n, 0) != (ssize_t) n || memcmp(buf, in->data, n)) return "pread-fails";
+  }
+  return NULL;
+}
+
+// every entry point, every callback script; each trace is followed by ";R=ok" or ";R=<broken post-condition>"
+static void do_entry_points(const char* id, YR_RULES* rules, INPUT* in, int flags, int timeout, const char* cbs)
 {
   static RUN r;
   char path[600];
@@ -36,57 +73,85 @@ static void do_entry_points(const char* id, YR_RULES* rules, INPUT* in, int flag
     fclose(f);
     made = 1;
   }
+  uint8_t* copy = (uint8_t*) malloc(in->size + 1);
+  memcpy(copy, in->data, in->size);
+  char* scripts = strdup(cbs && cbs[0] ? cbs : "-");
+  char* sp[8]; int nsp = splitc(scripts, ',', sp, 8);
   printf("%s E ", id);
   r.t.rules = rules;
-  for (int k = 0; k < 8; k++)
+  for (int si = 0; si < nsp; si++)
   {
-    int rc;
-    cb_script(&r.t, "-");
-    tr_reset(&r.t);
-    if (k == 0) rc = yr_rules_scan_mem(rules, in->data, in->size, flags, vf_scan_cb, &r.t, timeout);
-    else if (k == 1) rc = yr_rules_scan_file(rules, path, flags, vf_scan_cb, &r.t, timeout);
-    else if (k == 2)
+    printf("%s%s=", si ? "^" : "", sp[si]);
+    for (int k = 0; k < 8; k++)
     {
-      int fd = open(path, O_RDONLY);
-      if (fd < 0) DIE("open %s", path);
-      rc = yr_rules_scan_fd(rules, fd, flags, vf_scan_cb, &r.t, timeout);
-      close(fd);
-    }
-    else if (k == 7)
-    {
-      it_init(&r.it, &r.ic, in, NULL, NULL, 0);
-      rc = yr_rules_scan_mem_blocks(rules, &r.it, flags, vf_scan_cb, &r.t, timeout);
-    }
-    else
-    {
+      int rc = 0; const char* res = NULL; char* first = NULL;
+      int fds0 = count_fds();
       YR_SCANNER* sc = NULL;
-      if (yr_scanner_create(rules, &sc) != ERROR_SUCCESS) DIE("scanner create");
-      yr_scanner_set_flags(sc, flags); yr_scanner_set_timeout(sc, timeout); yr_scanner_set_callback(sc, vf_scan_cb, &r.t);
-      if (k == 3) rc = yr_scanner_scan_mem(sc, in->data, in->size);
-      else if (k == 4) rc = yr_scanner_scan_file(sc, path);
-      else if (k == 5)
+      int fd = -1; off_t off0 = 0;
+      if (k >= 3 && k <= 6)
       {
-        int fd = open(path, O_RDONLY);
+        if (yr_scanner_create(rules, &sc) != ERROR_SUCCESS) DIE("scanner create");
+        yr_scanner_set_flags(sc, flags); yr_scanner_set_timeout(sc, timeout); yr_scanner_set_callback(sc, vf_scan_cb, &r.t);
+      }
+      if (k == 2 || k == 5)
+      {
+        fd = open(path, O_RDONLY);
         if (fd < 0) DIE("open %s", path);
-        rc = yr_scanner_scan_fd(sc, fd);
-        close(fd);
+        off0 = lseek(fd, in->size < 3 ? (off_t) in->size : 3, SEEK_SET);
       }
-      else
+      for (int round = 0; round < ((k == 2 || k == 5) ? 2 : 1); round++)
       {
-        it_init(&r.it, &r.ic, in, NULL, sc, 0);
-        rc = yr_scanner_scan_mem_blocks(sc, &r.it);
+        cb_script(&r.t, sp[si]);
+        tr_reset(&r.t);
+        if (k == 0) rc = yr_rules_scan_mem(rules, in->data, in->size, flags, vf_scan_cb, &r.t, timeout);
+        else if (k == 1) rc = yr_rules_scan_file(rules, path, flags, vf_scan_cb, &r.t, timeout);
+        else if (k == 2) rc = yr_rules_scan_fd(rules, fd, flags, vf_scan_cb, &r.t, timeout);
+        else if (k == 3) rc = yr_scanner_scan_mem(sc, in->data, in->size);
+        else if (k == 4) rc = yr_scanner_scan_file(sc, path);
+        else if (k == 5) rc = yr_scanner_scan_fd(sc, fd);
+        else
+        {
+          it_init(&r.it, &r.ic, in, NULL, sc, 0);
+          rc = k == 6 ? yr_scanner_scan_mem_blocks(sc, &r.it) : yr_rules_scan_mem_blocks(rules, &r.it, flags, vf_scan_cb, &r.t, timeout);
+        }
+        tr_rc(&r.t, rc);
+        if (k == 2 || k == 5)
+        {
+          if (!res) res = fd_state(fd, in, off0);
+          if (round == 0) first = strdup(r.t.buf);
+          else if (!res && strcmp(first, r.t.buf)) res = "second-scan-on-same-fd-differs";
+        }
       }
-      yr_scanner_destroy(sc);
+      if (fd >= 0 && close(fd) != 0 && !res) res = "close-fails";
+      if (sc) yr_scanner_destroy(sc);
+      if (!res && memcmp(copy, in->data, in->size)) res = "buffer-modified";
+      if (!res && count_fds() != fds0) res = "fd-leak";
+      struct stat st;
+      if (!res && (stat(path, &st) != 0 || (size_t) st.st_size != in->size)) res = "file-changed";
+      printf("%s%s;R=%s", k ? "|" : "", first ? first : r.t.buf, res ? res : "ok");
+      free(first);
     }
-    tr_rc(&r.t, rc);
-    printf("%s%s", k ? "|" : "", r.t.buf);
+  }
+  // mapping failures: no callback, error code, nothing leaked
+  {
+    int fds0 = count_fds();
+    YR_SCANNER* sc = NULL;
+    yr_scanner_create(rules, &sc); yr_scanner_set_callback(sc, vf_scan_cb, &r.t);
+    cb_script(&r.t, "-"); tr_reset(&r.t);
+    int a = yr_rules_scan_file(rules, "/nonexistent/verif/file", flags, vf_scan_cb, &r.t, timeout);
+    int b = yr_scanner_scan_file(sc, "/nonexistent/verif/file");
+    int c = yr_rules_scan_fd(rules, 1000000, flags, vf_scan_cb, &r.t, timeout);
+    int d = yr_scanner_scan_fd(sc, 1000000);
+    yr_scanner_destroy(sc);
+    printf("^N=%s,%s,%s,%s;msgs=%d;R=%s", errname(a), errname(b), errname(c), errname(d), r.t.nmsg, count_fds() == fds0 ? "ok" : "fd-leak");
   }
   printf("\n");
+  free(copy); free(scripts);
   if (made) unlink(path);
 }
 
 #define MAXCLASS 36
-static void do_masks(const char* id, YR_RULES* rules, INPUT* in, int flags, int timeout, int N)
+static void do_masks(const char* id, YR_RULES* rules, INPUT* in, int flags, int timeout, int N, INPUT* whole)
 {
   static RUN r;
   static char* cls[MAXCLASS];
@@ -131,7 +196,16 @@ static void do_masks(const char* id, YR_RULES* rules, INPUT* in, int flags, int 
   cmap[total] = calls[total] = evf[total] = 0;
   printf("%s M %d", id, ncls);
   for (int c = 0; c < ncls; c++) { printf("!%s", cls[c]); free(cls[c]); }
-  printf("!%s!%s!%s\n", cmap, calls, evf);
+  printf("!%s!%s!%s", cmap, calls, evf);
+  if (whole)
+  {
+    // the same bytes through yr_rules_scan_mem
+    cb_script(&r.t, "-"); tr_reset(&r.t);
+    int rc = yr_rules_scan_mem(rules, whole->data, whole->size, flags, vf_scan_cb, &r.t, timeout);
+    tr_rc(&r.t, rc);
+    printf("!W=%s", r.t.buf);
+  }
+  printf("\n");
   free(cmap); free(calls); free(evf);
 }
 
@@ -145,6 +219,8 @@ int main()
   {
     int n = split(line, toks, 64);
     if (n < 1) continue;
+    snprintf(vf_current, sizeof vf_current, "%s", toks[0]);
+    signal(SIGALRM, vf_alarm); alarm(300);
     const char* rs = field(toks, n, "rs"); const char* inf = field(toks, n, "in");
     if (!rs || !inf) DIE("missing field in case %s", toks[0]);
     int flags = atoi(field(toks, n, "fl") ? field(toks, n, "fl") : "0");
@@ -152,12 +228,12 @@ int main()
     YR_RULES* rules = get_rules(rs);
     int nin = parse_inputs(inf, ins);
     const char* ep = field(toks, n, "ep"); const char* mk = field(toks, n, "masks");
-    if (ep) do_entry_points(toks[0], rules, &ins[atoi(ep)], flags, timeout);
+    if (ep) do_entry_points(toks[0], rules, &ins[atoi(ep)], flags, timeout, field(toks, n, "cbs"));
     else if (mk)
     {
-      int i = 0, N = 0;
-      if (sscanf(mk, "%d:%d", &i, &N) != 2 || N > 16) DIE("bad masks");
-      do_masks(toks[0], rules, &ins[i], flags, timeout, N);
+      int i = 0, N = 0, wi = -1;
+      if (sscanf(mk, "%d:%d:%d", &i, &N, &wi) < 2 || N > 16) DIE("bad masks");
+      do_masks(toks[0], rules, &ins[i], flags, timeout, N, wi >= 0 ? &ins[wi] : NULL);
     }
     else printf("%s BADTASK\n", toks[0]);
     free_inputs(ins, nin);
